@@ -540,6 +540,18 @@ func p2gCheck(s *p2gSpec, side *p2gSide, b []byte) (sig, msg string) {
 		}
 		a, w := append([]string(nil), got...), append([]string(nil), wk...)
 		if i > 0 {
+			// time-ordered reads: the sequence must be monotone in log time, and the same multiset
+			timeOf := map[string]uint64{}
+			for k, t := range want {
+				timeOf[wk[k]] = t.M.LogTime
+			}
+			for k := 1; k < len(got); k++ {
+				t0, ok0 := timeOf[got[k-1]]
+				t1, ok1 := timeOf[got[k]]
+				if ok0 && ok1 && ((i == 1 && t1 < t0) || (i == 2 && t1 > t0)) {
+					return "C16:py->go:indexed-order", fmt.Sprintf("Go indexed read (order %d) of a Python file is not sorted at position %d (%d after %d)", i, k, t1, t0)
+				}
+			}
 			sort.Strings(a)
 			sort.Strings(w)
 		}
@@ -601,7 +613,7 @@ func C16(r *chk.Run) {
 	if r.IsWorker() {
 		return
 	}
-	r.Rule("Go->Python: every legal call sequence up to depth D over valid-UTF-8 alphabets x (a) ALL 512 flag combinations (SkipMagic off) x CRC x {unchunked, none/1, none/64} at small depth and (b) 16 flag settings at larger depth, written by the Go writer and read by python3 with /repo/python/mcap: StreamReader(validate_crcs) on every file, SeekingReader(validate_crcs) header/summary/iter_messages in 3 orders/attachments/metadata where the summary carries what they rely on; Python->Go: the Python Writer over (a) all 6144 option combinations x small workloads and (b) reduced options x deeper workloads, read by the Go lexer (validating), both iterators in 3 orders, Info and random access; distinct = distinct files")
+	r.Rule("Go->Python: every legal call sequence up to depth D over valid-UTF-8 alphabets x (a) ALL 512 flag combinations (SkipMagic off) x CRC x {unchunked, none/1, none/64} at small depth and (b) 16 flag settings at larger depth, written by the Go writer and read by python3 with /repo/python/mcap: StreamReader(validate_crcs) on every file, SeekingReader(validate_crcs) header/summary/iter_messages in 3 orders/attachments/metadata where the summary carries what they rely on; Python->Go: the Python Writer over (a) all 6144 option combinations x small workloads and (b) reduced options x deeper workloads and (c) two fixed workloads (attachments/metadata directly after registrations; multi-message chunks overlapping in time) under all 6144, read by the Go lexer (validating), both iterators in 3 orders, Info and random access; distinct = distinct files")
 	r.Assume("compression is NONE (zstandard/lz4 are not installed for Python here); for schema/channel records the Python writer registers but never emits, 'what Python wrote' is taken from Python's own stream reader")
 	tmp, err := os.MkdirTemp("", "c16-")
 	if err != nil {
@@ -743,6 +755,30 @@ func C16(r *chk.Run) {
 			{"k": "channel", "topic": "t2", "enc": "", "schema": -1, "metadata": map[string]string{}},
 		}
 		specs = append(specs, sp)
+		// a second fixed workload: attachment and metadata directly after registrations (records
+		// still pending in the writer), then messages with descending and repeated times so that
+		// multi-message chunks overlap in time
+		sp2 := genP2G(explore.Replay(ch), true, 0)
+		msg := func(ch int, t uint64, data string, seq int) map[string]any {
+			return map[string]any{"k": "message", "channel": ch, "log_time": us(t), "publish_time": us(t / 3), "data": data, "sequence": seq}
+		}
+		sp2.Ops = []map[string]any{
+			{"k": "schema", "name": "s1", "encoding": "e", "data": "010203"},
+			{"k": "channel", "topic": "t0", "enc": "x", "schema": 0, "metadata": map[string]string{"k": "v"}},
+			{"k": "attachment", "create_time": "1", "log_time": "2", "name": "first", "media_type": "m", "data": "0a0b0c0d"},
+			{"k": "metadata", "name": "md1", "metadata": map[string]string{"a": "b"}},
+			{"k": "channel", "topic": "t1", "enc": "", "schema": -1, "metadata": map[string]string{}},
+			{"k": "metadata", "name": "md2", "metadata": map[string]string{}},
+			msg(1, 5, "aa0102", 1),
+			{"k": "attachment", "create_time": "3", "log_time": "4", "name": "second", "media_type": "", "data": ""},
+			msg(0, 0, "bb", 2),
+			msg(0, model.MaxT, "cc00112233445566778899aabbccddeeff00112233445566778899aabbccddeeff", 3),
+			msg(1, 0, "dd0102", 4),
+			msg(0, 5, "ee", 5),
+			msg(1, 0, "ff0102", 6),
+			msg(0, 5, "ab", 7),
+		}
+		specs = append(specs, sp2)
 	}
 	pdir := filepath.Join(tmp, "p2g")
 	_ = os.MkdirAll(pdir, 0o755)
